@@ -861,9 +861,21 @@ def fam_S(thorough):
         return ("switch", e, [(0, bodies[0]), (1, bodies[1]), (5, bodies[2])], default)
 
     def wrap(stmts):
-        body = [("var", "x", t, K(0, t)), ("var", "y", t, K(1, t)), ("var", "i", t, K(0, t)), ("var", "j", t, K(0, t))] + stmts
-        body.append(("ret", B("+", B("*", x, K(16, t)), B("^", y, g))))
-        return {"globals": [("g@", t, K(2, t))], "funcs": [ext, fn(t, ps, body)]}
+        # only what the statements use is declared, so that witnesses stay small
+        txt = repr(stmts)
+        use = {n: ("'%s'" % n) in txt for n in ("y", "i", "j", "g@", "ext@")}
+        body = [("var", "x", t, K(0, t))]
+        body += [("var", n, t, K(1 if n == "y" else 0, t)) for n in ("y", "i", "j") if use[n]]
+        body += stmts
+        obs = x
+        if use["y"] or use["g@"] or use["ext@"]:
+            rest = B("^", y, g) if use["y"] and (use["g@"] or use["ext@"]) else (y if use["y"] else g)
+            obs = B("+", B("*", x, K(16, t)), rest)
+        body.append(("ret", obs))
+        prog = {"funcs": ([ext] if use["ext@"] else []) + [fn(t, ps, body)]}
+        if use["g@"] or use["ext@"]:
+            prog["globals"] = [("g@", t, K(2, t))]
+        return prog
 
     vec = small_vectors([t, t])
 
@@ -1155,6 +1167,11 @@ def fam_CONST(thorough):
         if depth == "d2" and not thorough and seen % 4:
             continue
         for cs in const_cases(e, depth == "d1" or thorough):
+            yield cs
+    # negative operands exist only as (0 - n): the sign rules of / and % (truncation, remainder has the sign of the dividend)
+    for e in (("/", ("-", 0, 7), 2), ("%", ("-", 0, 7), 2), ("/", 7, ("-", 0, 2)), ("%", 7, ("-", 0, 2)), ("/", ("-", 0, 7), ("-", 0, 2)),
+              ("%", ("-", 0, 7), ("-", 0, 2)), ("*", ("-", 0, 7), 3), ("-", ("-", 0, 7), 3)):
+        for cs in const_cases(e, True):
             yield cs
     # constants referring to constants, used as array size and in a switch label position (labels are literals only)
     yield raw_case("CONST", "const-ref", "const int k1@ = 5;\nconst int k2@ = (k1@ * 3);\nfunction int f@(int a) {\n  return (a + k2@);\n}\n",
